@@ -96,7 +96,9 @@ def count_lines(name, args, files):
     return n
 
 
-def schedule_search(files, max_hits=600, pairs=None):
+def schedule_search(files, max_hits=600, pairs=None, time_budget=None):
+    import time
+    t_end = time.time() + time_budget if time_budget else None
     files = tuple(files)
     pool = api_pool()
     seq = {}
@@ -117,6 +119,9 @@ def schedule_search(files, max_hits=600, pairs=None):
             if b == (n, a):
                 continue
             for hit in range(1, total + 1, step):
+                if t_end is not None and time.time() > t_end:
+                    return {"confirmed": False, "note": "no failing schedule among %d preemption points (context bound 2, time budget reached)" % tried,
+                            "schedules_tried": tried}
                 tried += 1
                 val, _, done = with_preemption(n, a, files, hit, b)
                 if done and norm(val) != norm(seq[k]):
@@ -227,7 +232,7 @@ def main():
     kind = req["kind"]
     try:
         if kind == "schedule":
-            out = schedule_search(req["files"], req.get("max_hits", 400))
+            out = schedule_search(req["files"], req.get("max_hits", 400), time_budget=req.get("time_budget"))
         elif kind == "sequence":
             out = sequence_search(req["repo"], req.get("orders", 3))
         elif kind == "threads":
